@@ -291,3 +291,68 @@ def prelude(ctx, tag="pre", rate=5):
         shutil.rmtree(d, ignore_errors=True)
     ctx.probe("prelude." + op)
     return op
+
+
+def history_materialise(ctx, m, warm, name="plt00100", rate=6, tag="hist"):
+    """Materialise world m, in a share of the cases AFTER the same tool has already been used, in this
+    process, on a twin that a path-keyed cache or a long-lived worker could confuse with it:
+
+      same-path   a twin (same mesh and fields, other data and file layout) is written at the very path
+                  the real plotfile will have, `warm` runs on it, it is deleted and the real one written
+                  there (a plotfile regenerated in place)
+      rel-cwd     twin and real plotfile carry the same relative name in two run directories; `warm`
+                  runs in the first directory, the operation under test in the second (a script that
+                  loops over case directories); half of these cases use FORK pools, whose workers keep
+                  the working directory they were forked in
+
+    `warm(path_argument)` must run the operation under test once through run_tool WITHOUT an explicit cwd
+    (its outcome is not judged).
+    Returns (path_argument, cwd, absolute_path, mode).  Pools are NOT reset in between: a pool the tool
+    keeps alive is supposed to be met again."""
+    src = ctx.src
+    mode = "none"
+    if src.flag(f"{tag}.on", rate):
+        mode = src.choice(f"{tag}.mode", ["same-path", "rel-cwd"])
+    if mode == "none":
+        path = os.path.join(ctx.scratch, name)
+        world.write_plotfile(m, path)
+        return path, None, path, mode
+    from ..choice import RandomSource
+    sub = RandomSource(src.draw(f"{tag}.seed", 0, 9999))
+    if src.flag(f"{tag}.other_mesh", 3):
+        # a twin on ANOTHER mesh (same dimensionality and field names): something remembered per path
+        # about the mesh itself (box maps, masks) then belongs to a different plotfile
+        twin = world.gen_mesh(sub, tag="t", ndims=m.ndims, max_levels=max(m.nlev, 2), min_cells0=4)
+        twin.fields = list(m.fields)
+        twin.time = m.time
+    else:
+        twin = m.copy_meta()
+    world.gen_layout(sub, twin, tag="t")
+    world.fill_random(twin, sub.draw("t.data", 0, 999999))
+    ctx.probe("history." + mode)
+    if mode == "same-path":
+        path = os.path.join(ctx.scratch, name)
+        world.write_plotfile(twin, path)
+        try:
+            warm(path)
+        except Exception:
+            pass
+        import shutil
+        shutil.rmtree(path)
+        world.write_plotfile(m, path)
+        return path, None, path, mode
+    if src.flag(f"{tag}.fork"):
+        ctx.fork_mode = True
+    da = os.path.join(ctx.scratch, "run_a")
+    db = os.path.join(ctx.scratch, "run_b")
+    os.makedirs(da)
+    os.makedirs(db)
+    world.write_plotfile(twin, os.path.join(da, name))
+    world.write_plotfile(m, os.path.join(db, name))
+    ctx.default_cwd = da
+    try:
+        warm(name)
+    except Exception:
+        pass
+    ctx.default_cwd = db          # every later run_tool without an explicit cwd runs in the second directory
+    return name, db, os.path.join(db, name), mode
